@@ -38,6 +38,11 @@ def shape_term(rnd, name, lo, hi, kinds=None, d=3, kind=None, degenerate=True, f
         s, e = g(), g()
         while e == s:
             e = snap(s + rnd.choice([-1, 1]) * pos(), d)
+        if degenerate and rnd.random() < 0.1:
+            # a very narrow shape: the two parameters differ by a grid unit or so (closer than the library's comparison tolerance)
+            near = snap(s + rnd.choice([-1, 1]) * rnd.choice([unit, 2 * unit, max(unit, 5e-4)]), d)
+            if near != s:
+                e = near
         return s, e
 
     def slope():
